@@ -82,7 +82,7 @@ func GetRecompression(acceptEncoding string, contentEncoding string, contentType
 		case "gzip":
 			return Recompression{Add: CompressionTypeNone, Remove: CompressionTypeNone}
 		case "br":
-			return Recompression{Add: CompressionTypeBrotli, Remove: CompressionTypeNone}
+			return Recompression{Add: CompressionTypeNone, Remove: CompressionTypeNone}
 		default:
 			return fallbackCompressionWithDefault(contentEncoding, contentType, CompressionTypeGzip)
 		}
